@@ -57,7 +57,11 @@ def do_in(top, k, t):
 
 
 def do_filter(top, a, n, prs):
-    items = [mk_item(prs[2 * k], prs[2 * k + 1]) for k in range(int(n))]
+    items = []
+    for k in range(int(n)):
+        # kind 'd': the SAME object as the previous item (an input list may hold one object twice; both occurrences are positions of their own)
+        if prs[2 * k] == "d" and items and prs[2 * k + 1] == prs[2 * k - 1]: items.append(items[-1])
+        else: items.append(mk_item(prs[2 * k], prs[2 * k + 1]))
     # the iterable kind is a function of the case text: a list, a one-shot iterator, a generator or a tuple must all do
     sel = (sum(len(x) for x in prs) + int(n)) % 4
     feed = [items, iter(items), (x for x in items), tuple(items)][sel]
